@@ -155,7 +155,7 @@ def make_fxns(scn, log=None):
     return trans_time, rec_time, joint
 
 
-def run_all(scn, ref, EoN, modes=("sep", "joint", "arr", "perc", "fast")):
+def run_all(scn, ref, EoN, modes=("sep", "joint", "arr", "perc", "fast", "gin")):
     """All interfaces for one scenario; returns list of (interface, kind, detail)."""
     probs = []
     n = scn["n"]
@@ -240,6 +240,10 @@ def run_all(scn, ref, EoN, modes=("sep", "joint", "arr", "perc", "fast")):
                     finite = all(scn["delay"][u - 1][v - 1] < INF for (u, v) in ref["H"])
                     if finite and set(oc) != ref["out"]:
                         probs.append(("out-component", "out-component", "%r vs %r" % (sorted(oc), sorted(ref["out"]))))
+    if "gin" in modes:
+        r = get_infected_nodes_scripted(scn, ref, EoN)
+        for k, d in (r or []):
+            probs.append(("get_infected_nodes", k, d))
     if "fast" in modes:
         r = fast_sir_scripted(scn, EoN)
         if r is not None:
@@ -414,4 +418,73 @@ def fast_sir_unweighted_scripted(scn, ref, EoN):
     eff = dict(scn)
     eff["delay"] = [[(scn["delay"][a][b] if scn["delay"][a][b] < scn["dur"][a] else INF) for b in range(n)] for a in range(n)]
     out += compare_full(eff, ref, leaf.result[0], leaf.result[1])
+    return out
+
+
+def get_infected_nodes_scripted(scn, ref, EoN):
+    """get_infected_nodes(G, tau, gamma, I0, R0) = out-component of I0 in the percolated digraph with R0 removed.
+    The exponential draws are bound to nodes / ordered pairs by a probe run of directed_percolate_network with
+    distinct values (read back from the documented attributes `duration` / `delay_to_infection`); the scenario's
+    tables are then fed through the same draw positions.  Needs finite durations and delays on all contacts."""
+    n = scn["n"]
+    nodes = list(range(1, n + 1))
+    for u in nodes:
+        if scn["dur"][u - 1] >= INF:
+            return None
+        for v in nodes:
+            if scn["adj"][u - 1][v - 1] and scn["delay"][u - 1][v - 1] >= INF:
+                return None
+    G = build(scn)
+    tau, gamma = 0.5, 2.0
+
+    def probe_delays(k, rate):
+        return 100000.0 + k if rate == gamma else float(k + 1)
+    leaf = scripted.run_scripted(lambda: EoN.directed_percolate_network(G, tau, gamma), [], delays=probe_delays)
+    if leaf.error is not None:
+        return [("exception:%s" % type(leaf.error).__name__, "directed_percolate_network raised %r" % (leaf.error,))]
+    H = leaf.result
+    owner = {}
+    try:
+        for u in nodes:
+            owner[int(H.nodes[u]["duration"] - 100000.0)] = ("rec", u)
+        for (u, v) in H.edges():
+            owner[int(H.edges[u, v]["delay_to_infection"]) - 1] = ("trans", u, v)
+    except Exception as ex:
+        return [("probe", "could not read the draw positions back from the percolated graph: %r" % (ex,))]
+    want_draws = n + sum(1 for u in nodes for v in nodes if scn["adj"][u - 1][v - 1])
+    if len(owner) != want_draws:
+        return [("probe", "%d draws attributed, %d nodes+ordered contacts" % (len(owner), want_draws))]
+    bad = []
+
+    def delays(k, rate):
+        o = owner.get(k)
+        if o is None:
+            bad.append(("draw-protocol", "unexpected draw #%d with rate %r" % (k, rate)))
+            return 1.0
+        if o[0] == "rec":
+            if rate != gamma:
+                bad.append(("draw-rate", "duration of node %d drawn with rate %r, gamma=%r" % (o[1], rate, gamma)))
+            return fl(scn["dur"][o[1] - 1])
+        if rate != tau:
+            bad.append(("draw-rate", "delay %r drawn with rate %r, tau=%r" % (o[1:], rate, tau)))
+        return fl(scn["delay"][o[1] - 1][o[2] - 1])
+    I0 = [u for u in nodes if scn["init"][u - 1] == "I"]
+    R0 = [u for u in nodes if scn["init"][u - 1] == "R"]
+    leaf = scripted.run_scripted(lambda: EoN.get_infected_nodes(G, tau, gamma, initial_infecteds=list(I0),
+                                                                 initial_recovereds=list(R0) if R0 else None), [], delays=delays)
+    if leaf.error is not None:
+        return [("exception:%s" % type(leaf.error).__name__, "get_infected_nodes raised %r" % (leaf.error,))]
+    out = list(bad)
+    if set(leaf.result) != ref["out"]:
+        out.append(("out-component", "get_infected_nodes returned %r, the out-component of the initially infected nodes in the percolated digraph (initially recovered removed) is %r"
+                    % (sorted(leaf.result), sorted(ref["out"]))))
+    # overlapping initial sets are rejected
+    if I0:
+        try:
+            EoN.get_infected_nodes(G, tau, gamma, initial_infecteds=list(I0), initial_recovereds=[I0[0]])
+            out.append(("overlap-accepted", "initial_infecteds and initial_recovereds overlap but no EoNError was raised"))
+        except EoN.EoNError:
+            pass
+        except Exception as ex:
+            out.append(("overlap-exception", repr(ex)))
     return out
